@@ -258,11 +258,26 @@ def module_consts(tree):
     return out
 
 
+def check_signature(fn):
+    """exactly @classmethod, the only default allowed is api_version = 0 (the model's callers always pass the version)"""
+    decs = [d.id if isinstance(d, ast.Name) else None for d in fn.decorator_list]
+    if decs != ["classmethod"]:
+        refuse(fn, "decorators %r" % decs)
+    for dflt in fn.args.defaults:
+        if not (isinstance(dflt, ast.Constant) and dflt.value == 0 and type(dflt.value) is int):
+            refuse(fn, "default argument value")
+    for sub in ast.walk(fn):
+        if isinstance(sub, (ast.Global, ast.Nonlocal, ast.Lambda, ast.Try, ast.With, ast.While, ast.AugAssign, ast.NamedExpr,
+                            ast.Await, ast.AsyncFor, ast.AsyncWith, ast.ListComp, ast.GeneratorExp, ast.DictComp, ast.SetComp, ast.Delete)):
+            refuse(sub, type(sub).__name__)
+
+
 def translate_function(fn, consts):
     args = [a.arg for a in fn.args.args]
     f = Fn(consts, args)
     if [a for a in args if a not in ("cls", "data", "api_version")] or fn.args.vararg or fn.args.kwarg or fn.args.kwonlyargs:
         refuse(fn, "parameters %r" % args)
+    check_signature(fn)
     f.predefine(fn.body)
     term = f.block(fn.body)
     return {"status": "translated", "term": term, "nvars": len(f.slots), "vars": list(f.slots)}
@@ -271,6 +286,9 @@ def translate_function(fn, consts):
 def translate_produce(fn, consts):
     """decode_produce_response = two nested generator functions and a dispatch on api_version that returns one of them
     called on `data` (the ValueError branch is raised when the decoder is CALLED, not when it is iterated)"""
+    check_signature(fn)
+    if [a.arg for a in fn.args.args] != ["cls", "data", "api_version"]:
+        refuse(fn, "parameters")
     defs = [n for n in fn.body if isinstance(n, ast.FunctionDef)]
     rest = [n for n in fn.body if not isinstance(n, ast.FunctionDef)
             and not (isinstance(n, ast.Expr) and isinstance(n.value, ast.Constant) and isinstance(n.value.value, str))]
@@ -299,7 +317,7 @@ def translate_produce(fn, consts):
         break
     out = {}
     for d in defs:
-        if [a.arg for a in d.args.args] != ["data"]:
+        if [a.arg for a in d.args.args] != ["data"] or d.decorator_list or d.args.defaults:
             refuse(d, "nested function parameters")
         f = Fn(consts, ["data"])
         f.predefine(d.body)
